@@ -173,6 +173,37 @@ func (x *Exec) unfoldings(terms []*Term, rec map[string]bool, fuel int) []*Term 
 	return out
 }
 
+// pureFacts: a slice returned by a function assumed pure is a well-formed
+// slice header whose storage existed before the verified function was
+// entered (its value does not depend on the state, so it cannot have been
+// allocated later). One quantified fact per function symbol in use.
+func (x *Exec) pureFacts(terms []*Term) []*Term {
+	seen := map[string]*Term{}
+	for _, t := range terms {
+		t.walk(func(s *Term) {
+			if strings.HasPrefix(s.Op, "pure_") && s.Sort == "Slice" && len(s.Args) > 0 {
+				if _, ok := seen[s.Op]; !ok {
+					seen[s.Op] = s
+				}
+			}
+		})
+	}
+	var out []*Term
+	for _, op := range sortedKeys(seen) {
+		ex := seen[op]
+		var bvs []BoundVar
+		var args []*Term
+		for i, a := range ex.Args {
+			n := fmt.Sprintf("pa%d?%s", i, op)
+			bvs = append(bvs, BoundVar{Name: n, Sort: a.Sort})
+			args = append(args, mk(n, a.Sort))
+		}
+		app := mk(op, ex.Sort, args...)
+		out = append(out, Forall(bvs, wfSlice(app, x.entry0Alloc()), app))
+	}
+	return out
+}
+
 // mathFacts: ground instances of the axioms for uninterpreted math functions.
 func (x *Exec) mathFacts(terms []*Term) []*Term {
 	apps := map[string][]*Term{}
@@ -291,6 +322,7 @@ func (o *Obligation) Script(withModel bool) string {
 	unf := x.unfoldings(all, rec, 2)
 	all2 := append(append([]*Term(nil), all...), unf...)
 	mf := x.mathFacts(all2)
+	mf = append(mf, x.pureFacts(all2)...)
 	all2 = append(all2, mf...)
 	// the spec definitions themselves may mention declared functions
 	for _, d := range x.sym.DeclsFor(all2, specText) {
